@@ -32,6 +32,7 @@ type c02Case struct {
 	State string `json:"state,omitempty"` // intact, missing0, changed1, two, all, beyond
 	Op    string `json:"op,omitempty"`    // create, verify, repair, repairdc
 	Cwd   string `json:"cwd,omitempty"`   // set (relative paths), other (absolute paths)
+	Nest  bool   `json:"nest,omitempty"`  // disk, PAR2: the second protected file lives two directories down (states "dirgone" / "dirgone2": those directories are gone altogether)
 }
 
 var c02Extras = []string{"/d/unrelated.txt", "/d/sub/x.bin", "/d/s.par2.bak", "/d/s.vol00+01.par2.old", "/d/f0.orig", "/other/s.vol05+01.par2"}
@@ -284,6 +285,15 @@ func c02Gen(g *core.Gen) {
 				}
 				for _, cw := range []string{"set", "other"} {
 					g.Emit(&c02Case{Kind: "disk", Fmt: f, State: st, Op: op, Cwd: cw})
+					if f == "p2" {
+						g.Emit(&c02Case{Kind: "disk", Fmt: f, State: st, Op: op, Cwd: cw, Nest: true})
+					}
+				}
+			}
+			if f == "p2" && op != "create" {
+				for _, cw := range []string{"set", "other"} {
+					g.Emit(&c02Case{Kind: "disk", Fmt: f, State: "dirgone", Op: op, Cwd: cw, Nest: true})
+					g.Emit(&c02Case{Kind: "disk", Fmt: f, State: "dirgone2", Op: op, Cwd: cw, Nest: true})
 				}
 			}
 		}
@@ -381,7 +391,7 @@ func init() {
 	core.Register(&core.Prop{
 		ID:    "C02",
 		Level: "model_checking",
-		Rule: "(later rounds added: the decoder protocol search - main and fault alphabet - under the write oracle; a set above 16 KiB with every subset of wrong recovery files; PAR1 names with boundary code points, blanks at either end, dots in a row; staged twins) PAR1 sets written by the reference writer (every status pattern over 4 entries with >= 2 saved ones x one or two saved files deleted / corrupted, comment variants) under the same write oracle; bounded-exhaustive archive states (plus a PAR2 set whose protected files live in sub-directories and share base names with each other and with unrelated files beside the index, all combinations of <=2 operators): PAR2 default sets with ALL combinations of <=3 operators (thorough: additionally all pairs, and for the default set all triples, over the FULL per-offset data menu plus the recovery-file operators) from {data damage menu} U {recovery file replaced by a well-formed file with wrong blocks, payload flip, truncation, emptied, foreign-set recovery file, deleted}, double-check on and off, unrelated files / sub-directory / look-alike names beside the set; " +
+		Rule: "(later rounds added: the decoder protocol search - main and fault alphabet - under the write oracle; a set above 16 KiB with every subset of wrong recovery files; PAR1 names with boundary code points, blanks at either end, dots in a row; staged twins) PAR1 sets written by the reference writer (every status pattern over 4 entries with >= 2 saved ones x one or two saved files deleted / corrupted, comment variants) under the same write oracle; the real-directory runs also with a protected file two directories down and those directories gone altogether; bounded-exhaustive archive states (plus a PAR2 set whose protected files live in sub-directories and share base names with each other and with unrelated files beside the index, all combinations of <=2 operators): PAR2 default sets with ALL combinations of <=3 operators (thorough: additionally all pairs, and for the default set all triples, over the FULL per-offset data menu plus the recovery-file operators) from {data damage menu} U {recovery file replaced by a well-formed file with wrong blocks, payload flip, truncation, emptied, foreign-set recovery file, deleted}, double-check on and off, unrelated files / sub-directory / look-alike names beside the set; " +
 			"PAR1 full product of per-file damage {ok,deleted,changed,truncated,emptied,garbage} x per-volume {ok,deleted,corrupt,foreign,truncated} x double-check; Create on a size grid. " +
 			"Oracle from the recorder: every write during Repair targets a protected path with exactly the protected bytes and is listed in the result; every other directory entry is byte-identical afterwards; Verify performs no write; Create writes only set files and changes nothing else. non-trivial = Repair wrote or failed",
 		Assumptions: []string{"all filesystem access of par1/par2 goes through the fileIO seam (asserted by a source lint in this check)", "a path listed in the result but not written is outside the statement (counted, not alarmed)"},
@@ -426,6 +436,10 @@ func c02Disk(c *c02Case, r *core.Rec) {
 	os.MkdirAll(filepath.Join(set, "sub"), 0755)
 	os.MkdirAll(filepath.Join(root, "else"), 0755)
 	names := []string{"a.txt", "b.txt", "c.bin"}
+	if c.Nest {
+		names[1] = "deep/er/b.txt"
+		os.MkdirAll(filepath.Join(set, "deep", "er"), 0755)
+	}
 	sizes := []int{11, 6, 9}
 	var paths []string
 	var datas [][]byte
@@ -494,6 +508,11 @@ func c02Disk(c *c02Case, r *core.Rec) {
 		for _, p := range paths {
 			os.Remove(p)
 		}
+	case "dirgone":
+		os.RemoveAll(filepath.Join(set, "deep"))
+	case "dirgone2":
+		os.RemoveAll(filepath.Join(set, "deep"))
+		os.Remove(paths[2])
 	}
 	cwd := set
 	arg := "s" + ext
@@ -570,6 +589,17 @@ func c02Disk(c *c02Case, r *core.Rec) {
 			}
 		default:
 			want, prot := orig[p]
+			if !prot && !existed && now == "<dir>" {
+				// a directory on the way to a protected file, created anew: part of putting that file back, not a change to
+				// anything that was there
+				anc := false
+				for q := range orig {
+					anc = anc || strings.HasPrefix(q, p+string(filepath.Separator))
+				}
+				if anc {
+					continue
+				}
+			}
 			if !prot {
 				r.Violatef("repair-changed-other-file", "Repair (real directory) created/modified/removed %s, which is not a protected file", p)
 				continue
